@@ -10,6 +10,8 @@ Bounded-exhaustive enumeration (simplest first) of (macro definitions, invocatio
                            (0,1,2, variadic, named variadic) x (plain, stringizing) bodies
   F4  variadics            every body of <= V tokens over {V p , ## # x __VA_OPT__( )} x shapes x argument lists
   F5  definition parsing   name/paren spacing x parameter list spelling x body x redefinition mode x invocation
+  F7  rescanning           every text of <= R tokens over {I F N LP RP CM ( ) , a} where LP RP CM N are object-like
+                           macros producing ( ) , and a function-like macro's name
   F6  dynamic macros       sequences over __COUNTER__ __LINE__ __FILE__ __BASE_FILE__ direct, through object-like and
                            function-like macros, stringized, pasted, over several lines
 
@@ -167,6 +169,8 @@ def f3_texts(maxlen):
                         break
             if not ok:
                 continue
+            if L > 6 and t.count("(") != t.count(")"):
+                continue      # at the largest size keep only balanced texts (unbalanced ones are covered up to 6)
             yield t
 
 
@@ -293,7 +297,38 @@ def gen_f6(tier):
             yield ("F6", "F6/" + " ".join(x if x != "\n" else "NL" for x in seq).replace("@", ""), defs, inv)
 
 
-GENERATORS = [("F5", gen_f5), ("F6", gen_f6), ("F2", gen_f2), ("F4", gen_f4), ("F3", gen_f3), ("F1", gen_f1)]
+F7_VARIANTS = {
+    # variant: (alphabet, definitions, {tier: max tokens})
+    "a": (["I@", "F@", "N@", "LP@", "(", ")", "a"],
+          {"I@": "#define I@(p) p", "F@": "#define F@(p) [ p ]", "N@": "#define N@ F@", "LP@": "#define LP@ ("},
+          {"quick": 5, "thorough": 6}),
+    "b": (["I@", "F@", "N@", "LP@", "RP@", "CM@", "(", ")", ",", "a"],
+          {"I@": "#define I@(p) p", "F@": "#define F@(p,q) [ p | q ]", "N@": "#define N@ F@", "LP@": "#define LP@ (",
+           "RP@": "#define RP@ )", "CM@": "#define CM@ ,"},
+          {"quick": 4, "thorough": 5}),
+}
+F7_BOUND = {t: dict((v, F7_VARIANTS[v][2][t]) for v in F7_VARIANTS) for t in ("quick", "thorough")}
+
+
+def gen_f7(tier):
+    """Rescanning: parentheses, commas and function-like names that are themselves produced by macros."""
+    for v in sorted(F7_VARIANTS):
+        alpha, defs, bound = F7_VARIANTS[v]
+        for L in range(2, bound[tier] + 1):
+            for t in itertools.product(alpha, repeat=L):
+                if not any(x in ("I@", "F@", "N@") for x in t):
+                    continue
+                if not any(x in ("(", "LP@") for x in t):
+                    continue
+                if t[-1] in ("(", "LP@", ",", "CM@") and L > 2:
+                    continue      # always unterminated or trivially trailing
+                need = sorted(k for k in defs if k in t)
+                if "N@" in need and "F@" not in need:
+                    need.append("F@")
+                yield ("F7", "F7/%s/%s" % (v, " ".join(t).replace("@", "")), tuple(defs[k] for k in need), " ".join(t))
+
+
+GENERATORS = [("F7", gen_f7), ("F5", gen_f5), ("F6", gen_f6), ("F2", gen_f2), ("F4", gen_f4), ("F3", gen_f3), ("F1", gen_f1)]
 
 # ------------------------------------------------------------------------------------------------------------
 # rendering and running
@@ -430,6 +465,9 @@ def classify(case, features, exp, status, got):
     if isinstance(status, int) and status < 0:
         return "C09|%s|%s|crash:signal%d" % (fam, fc, -status)
     d0 = case[2][0] if case[2] else ""
+    if (status == 0 and "gnu-comma-kept-before-empty" in features and "stringize-va-opt" not in features
+            and deviation_class(exp, got) == "dropped:,"):
+        return "C09|gnu-comma|variable-argument-present-but-empty|comma-deleted"
     if "__VA_OPT__" in d0:
         sub = va_opt_subclass(case, features)
         if sub != "plain-content":
@@ -786,7 +824,10 @@ def run(ctx):
     serial = 0
     fam_counts = {}
     work = []
+    only = os.environ.get("VERIF_C09_FAMILIES")          # development aid; evidence then says exhaustive:false
     for fam, gen in GENERATORS:
+        if only and fam not in only.split(","):
+            continue
         cases = list(gen(tier))
         fam_counts[fam] = len(cases)
         items = []
@@ -840,6 +881,9 @@ def run(ctx):
             v = first[sig]
             for _ in range(n):
                 ctx.violation(sig, v["desc"], files=v["files"], replay=v["replay"])
+    if only:
+        ctx.incomplete("restricted to families %s by VERIF_C09_FAMILIES" % only)
+        unfinished = unfinished or 1
     merr = [e for r in results for e in r["model_errors"]]
     if merr:
         raise core.HarnessError("reference model raised on %d cases, e.g. %s" % (len(merr), merr[:3]))
@@ -853,7 +897,7 @@ def run(ctx):
               cases_per_family=fam_counts, per_family=per_fam, features_exercised=feats,
               oracle_disagreement_samples=dis[:6],
               bounds_completed={"F1": F1_BOUND[tier], "F2": F2_BOUND[tier], "F3": F3_BOUND[tier], "F4": F4_BOUND[tier],
-                                "F6": F6_BOUND[tier]} if not unfinished else "partial")
+                                "F6": F6_BOUND[tier], "F7": F7_BOUND[tier]} if not unfinished else "partial")
     ctx.assume("gcc 12 -std=gnu17 -E -P is the second oracle; cases where it and the model differ are not judged")
     ctx.assume("token alphabets and bounds per family as in the module docstring and *_BOUND tables")
     ctx.assume("__VA_OPT__ follows C2x (present iff the variable argument expands to at least one token); "
